@@ -18,3 +18,6 @@ P("C17", "vn", also_release=True,
   design_ref="DESIGN.md §5 C17",
   level_text="Exploration: each of the 1024 subsets of heights 1..10 is driven through every operation and argument 0..12, plus random histories over a u64 boundary pool, under a build with overflow checks and debug assertions (and plain release in thorough); the result, full content and representation invariant are compared with a model after every call. Held = no divergence on the executions explored.",
   level_note="Trusted: the ISet model in harness/vn/src/c17.rs (u128 interval arithmetic); crate-private operations reached through pass-through hook wrappers.")
+
+# Properties not claimed, with the reason (everything else not in PROPS gets a default text).
+NOT_CLAIMED = {}
